@@ -58,6 +58,9 @@ static void prop_cycle(Tape &t, Ctx &c) {
     if (cfg.coars == EMIN) {
         std::string why = emin_degenerate(*amg, cfg.eps_strong);
         if (!why.empty()) { c.label("emin:degenerate-aggregate"); c.desc << " | emin degenerate: " << why; }
+        // still open after the repair: an aggregate whose A_f P_tent column holds non-zero rounding residues (omega = residue/residue)
+        std::string res = emin_degenerate(*amg, cfg.eps_strong, true);
+        if (!res.empty()) { c.label("emin:residue-aggregate"); c.desc << " | F-emin-residue: " << res; if (c.known("F-emin-residue")) return; }
     }
 
     // ---- B, history independence
